@@ -6,6 +6,11 @@ CompleteBipartiteGraph object and on the Lean model; after construction and afte
 views (order, number_of_edges, edges(), neighbour / predecessor / successor lists, degrees,
 has_edge on a probe square including out-of-range vertices, the ValueError of the views on bad
 vertices, is_dag) are rendered to a canonical text and compared.
+`batch`: the same with add_edges_from batches of every length around the powers of two and around the integer
+constants of the current source (common.probe_sizes), unordered, with repeats, with a refused pair at the start /
+in the middle / at the end, and the object used afterwards.  `nxraw`: from_networkx of every class on networkx
+objects of every class (Graph, DiGraph, MultiGraph, MultiDiGraph, not a networkx object) whose edge listing has
+repeats, loops, both orientations, edges inside a side (model: `fromNx` on the raw listing).
 
 Oracle (independent of the model): a plain Python set of edges is updated alongside the real
 object by the obvious set semantics; every view of the real object must agree with it after every
@@ -27,7 +32,10 @@ RULE = ("random histories of length 0..60 on graphs with at most 8 (growing to a
         "collisions (duplicates, removals of present edges, re-insertions) are frequent; about 25% of the calls have "
         "invalid arguments (0, negative, n+1, n+2, self-loops, removal of non-edges, add_edges_from with a bad edge "
         "at the start / middle / end); Graph, DirectedGraph, BipartiteGraph, CompleteBipartiteGraph; a hand-made "
-        "corpus of boundary histories runs first; networkx conversions from shuffled / relabelled networkx objects. "
+        "corpus of boundary histories runs first; networkx conversions from shuffled / relabelled networkx objects; "
+        "add_edges_from batches of every length 0..5, 2^k-1..2^k+1 and around the constants of graphs.py (refused pair "
+        "at the start / middle / end / nowhere, unordered, repeats) followed by further updates; from_networkx on "
+        "networkx objects of every class (multi-edges, loops, directed where undirected is expected and v.v.). "
         "distinct = distinct request line; non-trivial = at least one operation (or one edge for nx)")
 ASSUMPTIONS = [
     "arguments of the update calls are Python ints (other types are outside the property)",
@@ -522,10 +530,110 @@ def nx_build(kind, size, edges, labels, order, flips):
     return N
 
 
+# ------------------------------------------------------------------ from_networkx on ANY networkx object
+NXCLASSES = [networkx.Graph, networkx.DiGraph, networkx.MultiGraph, networkx.MultiDiGraph]
+NOT_NX = [None, [(1, 2)], {1: [2]}, "graph", 3]
+
+
+def nxraw_object(kind, nxcls, size, labels, order, listing, other=0):
+    """the networkx object of class NXCLASSES[nxcls] with the nodes of `nx_build` and the edges of `listing` (pairs
+    over 1..n, bipartite: 1..l left and l+1..l+r right) added one by one, repeats and loops included"""
+    if nxcls == 4:
+        if other == len(NOT_NX):
+            return Graph(2)                              # a cnfgen graph is not a networkx graph either
+        return NOT_NX[other % len(NOT_NX)]
+    N = NXCLASSES[nxcls]()
+    if kind == BIP:
+        l = size[0]
+        for side, i in order:
+            N.add_node(labels[side][i - 1], bipartite=side)
+        lab = lambda x: labels[0][x - 1] if x <= l else labels[1][x - l - 1]   # noqa
+    else:
+        for i in order:
+            N.add_node(labels[i - 1])
+        lab = lambda x: labels[x - 1]   # noqa
+    for u, v in listing:
+        N.add_edge(lab(u), lab(v))
+    return N
+
+
+def nxraw_pairs(kind, size, labels, N):
+    """what the object reports, in the numbering 1..n that sorting the labels gives"""
+    if kind == BIP:
+        rank = {x: i for i, x in enumerate(labels[0], start=1)}
+        rank.update({x: size[0] + j for j, x in enumerate(labels[1], start=1)})
+    else:
+        rank = {x: i for i, x in enumerate(labels, start=1)}
+    return [(rank[e[0]], rank[e[1]]) for e in N.edges()]
+
+
+def nxraw_expect(kind, nxcls, size, pairs):
+    """what the property allows `from_networkx` to do with this object: (verdict, edge set of an accepted conversion);
+    verdict 'refuse' = ValueError is the only consistent answer (the type cannot hold such an edge), 'accept' = a
+    legal object of the documented class, 'either' = the text of the property does not say"""
+    if kind == SIMPLE:
+        if any(u == v for u, v in pairs):
+            return "refuse", None
+        return ("accept" if nxcls == 0 else "either"), {(min(u, v), max(u, v)) for u, v in pairs}
+    if kind == DIRECTED:
+        if nxcls in (1, 3):
+            return ("accept" if nxcls == 1 else "either"), set(pairs)
+        return "either", None                            # an undirected object where a directed one is documented
+    l = size[0]
+    if any((u <= l) == (v <= l) for u, v in pairs):
+        return "refuse", None
+    return ("accept" if nxcls == 0 else "either"), {(min(u, v), max(u, v) - l) for u, v in pairs}
+
+
+def nxraw_oracle(kind, klass, nxcls, size, labels, order, listing, other):
+    def oracle():
+        if nxcls == 4:
+            return None
+        N = nxraw_object(kind, nxcls, size, labels, order, listing, other)
+        pairs = nxraw_pairs(kind, size, labels, N)
+        verdict, E = nxraw_expect(kind, nxcls, size, pairs)
+        desc = {"networkx_class": type(N).__name__, "nodes": [repr(x) for x in N.nodes(data=(kind == BIP))][:24],
+                "edges": [repr(x) for x in N.edges()][:40], "converted_by": klass.__name__ + ".from_networkx"}
+        try:
+            B = klass.from_networkx(N)
+        except ValueError:
+            if verdict == "accept":
+                desc["what"] = "from_networkx raised on a legal networkx graph"
+                return desc
+            return None
+        except Exception as e:  # noqa
+            desc["what"] = "from_networkx raised " + type(e).__name__
+            return desc
+        if verdict == "refuse":
+            desc["what"] = "from_networkx accepted an object with an edge the graph type cannot hold"
+            desc["result"] = {"number_of_edges": B.number_of_edges(), "edges()": [list(e) for e in B.edges()][:40]}
+            return desc
+        if E is None:
+            # undirected object accepted as a directed graph: whatever orientation was chosen, the result must be a
+            # consistent object over the same vertex pairs
+            E = {(u, v) for u, v in B.edges()}
+            und = {(min(u, v), max(u, v)) for u, v in pairs}
+            if {(min(u, v), max(u, v)) for u, v in E} != und:
+                desc["what"] = "from_networkx does not preserve the edges"
+                desc["result"] = sorted(E)[:40]
+                return desc
+        R = Ref(kind, size)
+        R.E = set(E)
+        R.inserted = sorted(E)
+        f = check_views(B, R)
+        if f is None:
+            f = check_networkx(B, R)
+        if f is not None:
+            f["what"] = "from_networkx does not preserve vertices/edges (all views against the edge set of the networkx object)"
+            f.update(desc)
+        return f
+    return oracle
+
+
 def build(suite, info):
     kind = info["kind"]
     size = list(info["size"])
-    if suite == "hist":
+    if suite in ("hist", "batch"):
         ops = [list(o) for o in info["ops"]]
         for o in ops:
             if o[0] == "addm":
@@ -572,6 +680,22 @@ def build(suite, info):
                 f["what"] = "to_networkx after from_networkx"
             return f
         return Case(suite, r, impl, oracle, cls=KNAME[kind], nontrivial=len(edges) > 0, info=info)
+    if suite == "nxraw":
+        nxcls, other = info["nxcls"], info.get("other", 0)
+        labels, order, listing = info["labels"], info["order"], [tuple(e) for e in info["listing"]]
+        klass = {SIMPLE: Graph, DIRECTED: DirectedGraph, BIP: BipartiteGraph}[kind]
+        if nxcls == 4:
+            pairs = []
+        else:
+            pairs = nxraw_pairs(kind, size, labels, nxraw_object(kind, nxcls, size, labels, order, listing))
+        r = req("gfromnx", kind, nxcls, size, enc_pairs(pairs))
+
+        def impl():
+            return "OK " + VIEW[kind](klass.from_networkx(nxraw_object(kind, nxcls, size, labels, order, listing, other)))
+        verdict = "not-networkx" if nxcls == 4 else nxraw_expect(kind, nxcls, size, pairs)[0]
+        cls = "{}<-{}:{}".format(KNAME[kind], "other" if nxcls == 4 else NXCLASSES[nxcls].__name__, verdict)
+        return Case(suite, r, impl, nxraw_oracle(kind, klass, nxcls, size, labels, order, listing, other), cls=cls,
+                    nontrivial=len(listing) > 0, info=info)
     raise ValueError("unknown suite " + suite)
 
 
@@ -737,6 +861,99 @@ def gen_nx(rng, kind):
     return dict(kind=kind, size=size, edges=[list(e) for e in edges], labels=labels, order=order, flips=flips)
 
 
+def gen_nxraw(rng, kind, nxcls, clean):
+    """a networkx object of class `nxcls` for `from_networkx` of class `kind`; `clean` = only edges the target
+    type can hold (repeats and both orientations are still there)"""
+    base = gen_nx(rng, kind)
+    size, labels, order = base["size"], base["labels"], base["order"]
+    if kind == BIP:
+        l, r = size
+        n = l + r
+        legal = [(u, l + v) for u in range(1, l + 1) for v in range(1, r + 1)]
+        illegal = [(u, v) for u in range(1, n + 1) for v in range(1, n + 1) if (u <= l) == (v <= l)]
+    else:
+        n = size[0]
+        legal = [(u, v) for u in range(1, n + 1) for v in range(1, n + 1) if u != v]
+        illegal = [(u, u) for u in range(1, n + 1)]
+        if kind == DIRECTED:
+            legal, illegal = legal + illegal, []
+    listing = []
+    for _ in range(rng.choice([0, 1, 2, 3, 5, 8, 12, 20])):
+        x = rng.random()
+        if listing and x < .3:
+            u, v = rng.choice(listing)                     # a parallel edge, in the same or the other orientation
+            listing.append((v, u) if rng.random() < .5 else (u, v))
+        elif legal:
+            u, v = rng.choice(legal)
+            listing.append((v, u) if (kind == BIP and rng.random() < .5) else (u, v))
+    if not clean and illegal:
+        for _ in range(rng.choice([1, 1, 2])):
+            listing.insert(rng.randint(0, len(listing)), rng.choice(illegal))
+    return dict(kind=kind, nxcls=nxcls, size=size, labels=labels, order=order, listing=[list(e) for e in listing],
+                other=rng.randrange(len(NOT_NX) + 1))
+
+
+def batch_lengths(tier, rng):
+    """lengths of add_edges_from batches: tiny ones, around every power of two, around the integer constants of the
+    current graphs.py (thresholds of fast paths cross here)"""
+    top = 8 if tier == "quick" else 11
+    out = {0, 1, 2, 3, 4, 5, 6, 10, 12, 20, 24, 40, 48, 100}
+    for k in range(3, top + 1):
+        out.update([(1 << k) - 1, 1 << k, (1 << k) + 1])
+    out.update(common.probe_sizes(["graphs.py"], 0, 1 << top))
+    return sorted(out)
+
+
+def gen_batch(rng, kind, size, length, where):
+    """a history around one long add_edges_from call: a few single insertions, the batch (pairs in no particular
+    order, repeats, backward pairs and loops where the type allows them; one refused pair at `where` in
+    start / middle / end / none), then the object is used again: single insertions next to what the batch touched,
+    a second short batch, removals and growth for simple graphs"""
+    ops = []
+    for _ in range(rng.choice([0, 0, 2, 4])):
+        ops.append(["add"] + list(gen_pair(rng, kind, size, True)))
+    if kind in (SIMPLE, DIRECTED):
+        a = b = size[0]
+    else:
+        a, b = size
+    pool = [(u, v) for u in range(1, a + 1) for v in range(1, b + 1) if not (kind == SIMPLE and u == v)]
+    style = rng.choice(["random", "random", "decreasing", "few-sources", "no-repeats"])
+    if not pool:
+        es = []
+    elif style == "no-repeats":
+        es = [list(e) for e in rng.sample(pool, min(length, len(pool)))]
+    elif style == "few-sources":
+        srcs = rng.sample(range(1, a + 1), min(a, 2))
+        sub = [e for e in pool if e[0] in srcs]
+        es = [list(rng.choice(sub)) for _ in range(length)]
+    else:
+        es = [list(rng.choice(pool)) for _ in range(length)]
+        if style == "decreasing":
+            es.sort(reverse=True)
+    if where != "none":
+        bad = list(gen_pair(rng, kind, size, False))
+        pos = {"start": 0, "middle": len(es) // 2, "end": len(es)}[where]
+        if where == "middle" and len(es) > 2 and rng.random() < .5:
+            pos = rng.randint(1, len(es) - 1)
+        es.insert(pos, bad)
+    ops.append(["addm", es])
+    for _ in range(rng.choice([1, 3, 6])):
+        x = rng.random()
+        if x < .6:
+            ops.append(["add"] + list(gen_pair(rng, kind, size, rng.random() < .85)))
+        elif x < .8:
+            m = rng.choice([1, 2, 3])
+            ops.append(["addm", [list(gen_pair(rng, kind, size, True)) for _ in range(m)]])
+        elif kind == SIMPLE and es:
+            u, v = rng.choice(es)
+            ops.append(["rem", u, v])
+        else:
+            ops.append(["upd", size[0] + 1] if kind == SIMPLE and size[0] < 11 else ["add"] + list(gen_pair(rng, kind, size, True)))
+            if ops[-1][0] == "upd":
+                size = [size[0] + 1]
+    return ops
+
+
 def cases(ctx):
     tier, seed = ctx["tier"], ctx["seed"]
     rng = common.sub_rng(seed, "C16")
@@ -761,12 +978,32 @@ def cases(ctx):
         yield build("hist", info)
     for i in range(reps // 3):
         yield build("nx", gen_nx(rng, rng.choice([SIMPLE, DIRECTED, BIP])))
+    # ---- long batches with a refused pair somewhere, object used afterwards
+    rngb = common.sub_rng(seed, "C16-batch")
+    lengths = batch_lengths(tier, rngb)
+    for length in lengths:
+        for where in ("none", "start", "middle", "end"):
+            kinds = [SIMPLE, DIRECTED, BIP] if (tier != "quick" or length <= 70) else [rngb.choice([SIMPLE, DIRECTED, BIP])]
+            if where == "middle" and rngb.random() < .15:
+                kinds = kinds + [CBIP]
+            for kind in kinds:
+                if kind in (SIMPLE, DIRECTED):
+                    size = [rngb.choice([2, 4, 6, 8, 9, 10])]
+                else:
+                    size = [rngb.choice([1, 3, 5, 7]), rngb.choice([2, 4, 6])]
+                yield build("batch", dict(kind=kind, size=size, ops=gen_batch(rngb, kind, size, length, where)))
+    # ---- from_networkx of every class on networkx objects of every class
+    rngn = common.sub_rng(seed, "C16-nxraw")
+    for i in range(240 if tier == "quick" else 4000):
+        kind = [SIMPLE, DIRECTED, BIP][i % 3]
+        nxcls = (i // 3) % 4 if i % 13 else 4
+        yield build("nxraw", gen_nxraw(rngn, kind, nxcls, clean=rngn.random() < .45))
 
 
 def search(ctx, case):
     """the correspondence broke on this case: is there a history on which the PROPERTY fails?"""
     info = case.info
-    if case.suite != "hist":
+    if case.suite not in ("hist", "batch"):
         return None
     kind, size = info["kind"], list(info["size"])
     ops = info["ops"]
